@@ -1117,7 +1117,7 @@ fn gen_c17(ctx: &mut Ctx) {
 }
 
 fn gen_c18(ctx: &mut Ctx) {
-    let n = ctx.scale(2000, 40000);
+    let n = ctx.scale(2000, 12000);
     histories(ctx, n, 12, true, &[KD, KA, KD, KA, 8, 2]);
     for k in [KD, KA, 0, 8] {
         for c in [0u128, 1, 63, 64, 65, 127, 128, 129, 192, 193, 1000] {
